@@ -24,9 +24,12 @@ RowPaths  == {"append", "insert", "extend", "iadd", "setitem",
               "extend_tuple", "extend_iter", "extend_grid", "iadd_grid",   \* the other argument forms of extend / +=
               "append_undeclared", "setitem_undeclared",                   \* the value sits under a key that is no column (yet)
               "setslice_list", "setslice_iter", "setslice_grid", "setslice_gridslice",   \* g[a:b] = rows, in every form rows may take
-              "copy_append", "copy_setitem"}                               \* the store goes to a deep copy of the grid
+              "copy_append", "copy_setitem",                               \* the store goes to a deep copy of the grid
+              "slice_append", "slice_setitem", "filter_append"}            \* ... to a slice / a filter result of it (a grid of its own,
+                                                                           \* as declared or as undeclared as the grid it was taken from)
 MetaPaths == {"meta_set", "meta_append", "meta_extend", "colmeta_set", "colmeta_append", "col_assign", "col_add_item",
               "copy_meta_set", "copy_colmeta_set", "copy_col_assign",
+              "slice_meta_set", "slice_colmeta_set", "filter_meta_set", "filter_col_assign",
               \* the column was handed over as a plain dict / a fresh metadata object first, the tag is stored afterwards
               "colmeta_set_assigned", "colmeta_set_assigned_mo", "colmeta_append_reassigned",
               "colmeta_set_adopted",       \* ... or was taken over from a column of ANOTHER grid (a 3.0 one)
@@ -57,11 +60,16 @@ After(s, kind) ==
 
 GateInv(s) == \A k \in s.stored : Accepts(s.ver, k)
 
+\* A grid derived from s (a slice g[a:b:st], the result of g.filter(...), a deep copy) carries rows of s under the
+\* version s has NOW -- detected or declared -- and is as pinned to it as s is (a detected version goes on being
+\* detected in the derived grid); it holds no kind s does not hold.
+Derived(s) == St(s.ver, s.given, s.stored)
+
 \* run a sequence of stores <<path, kind>>; returns the sequence of <<outcome, state after>>
 RECURSIVE Run(_, _)
 Run(s, steps) == IF steps = <<>> THEN <<>>
                  ELSE LET o == Outcome(s, steps[1][2])  t == After(s, steps[1][2])
-                      IN <<[out |-> o, ver |-> t.ver]>> \o Run(t, Tail(steps))
+                      IN <<[out |-> o, ver |-> t.ver, dver |-> Derived(t).ver]>> \o Run(t, Tail(steps))
 RECURSIVE Final(_, _)
 Final(s, steps) == IF steps = <<>> THEN s ELSE Final(After(s, steps[1][2]), Tail(steps))
 =============================================================================
